@@ -4,6 +4,7 @@
     Adoption of an in-range sub-slice is the operation OSliceRef of the Bytes machine. *)
 From Coq Require Import String.
 From Hip Require Import Base Range Utf8 StrRange Bytes BytesSpec BytesInv BytesLib BytesProofs3 BytesProofs BytesCorollaries BytesContract.
+From Hip Require Import ApiAudit.
 From HipGen Require Import WrapTable.
 Open Scope N_scope.
 
@@ -11,6 +12,14 @@ Open Scope N_scope.
 Definition wrap_ok (w : wentry) : bool := String.eqb (w_hip w) (w_std w) && w_args_ok w && w_adopts w.
 (** the case conversions and the UTF-16 decoders are std's results converted with From<String> (no logic of their own) *)
 Theorem C11_conversions_delegate : forallb snd conv_table = true /\ List.length conv_table = 4%nat.
+Proof. split; vm_compute; reflexivity. Qed.
+
+(** the size / capacity / representation / ASCII / shrink wrappers are pure forwards to the byte string, under the same name, with their
+    arguments in order *)
+Definition fw_key (e : string * string * string * bool) : string * string := (fst (fst (fst e)), snd (fst (fst e))).
+Theorem C11_wrappers_forward :
+  forallb (fun e => String.eqb (snd (fst (fst e))) (snd (fst e)) && snd e) forward_table = true
+  /\ forallb (fun r => existsb (fun e => pair_eqb (fw_key e) r) forward_table) forward_required = true.
 Proof. split; vm_compute; reflexivity. Qed.
 
 Theorem C11_table : forallb wrap_ok wrap_table = true /\ adopt_str_ok = true /\ adopt_indexed_ok = true /\ iter_forward_ok = true /\ iter_backward_ok = true.
